@@ -31,9 +31,11 @@ LcmSet(S) == IF S = {} THEN 1 ELSE LET x == CHOOSE x \in S : TRUE IN Lcm(x, LcmS
 ZeroUnion(a, b, tb) == AffRatB(a, b, tb)[2] = 0
 Guarded(r) == IF r[2] = 0 THEN <<0, 1>> ELSE r                       \* "if union == 0: return 0"
 \* Two zero-extent geometries at DIFFERENT instants are disjoint in time: their affinity is 0 (C06 DisjointInTime).
-\* At the SAME instant the ratio is 0/0 and C06 leaves the value open: an "open" pair.  open[i][j] says which value an
+\* When their time extents meet (the same instant; two flat boxes -- low = high -- that share some time) the ratio is 0/0
+\* and C06 leaves the value open: an "open" pair.  open[i][j] says which value an
 \* implementation gives it: 0 (the zero-union guard, what the model assumes) or 1.
-OpenPair(a, b, tb) == ZeroUnion(a, b, tb) /\ Aff!PExt(a, tb, 0) = Aff!PExt(b, tb, 0)
+OpenPair(a, b, tb) == /\ ZeroUnion(a, b, tb)
+                      /\ LET x == Aff!PExt(a, tb, 0)  y == Aff!PExt(b, tb, 0) IN Max(x[1], y[1]) <= Min(x[2], y[2])
 Denoms(src, tgt, tb) == {Guarded(AffRatB(src[i], tgt[j], tb))[2] : i \in DOMAIN src, j \in DOMAIN tgt}
 \* W[i][j] = affinity(src[i], tgt[j]) * D, D = lcm of the denominators
 ExactWO(src, tgt, tb, open) ==
